@@ -137,8 +137,13 @@ PROFILES = {
 
 
 def get_profile(name):
+    base, _, variant = name.partition(":")
     p = copy.deepcopy(BASE_PROFILE)
-    p.update(copy.deepcopy(PROFILES[name]))
+    p.update(copy.deepcopy(PROFILES[base]))
+    if variant == "big":
+        # deeper bounds of the thorough tier: long scenes, crowded frames, long operation histories
+        p["max_samples"] = 40
+        p["max_actors"] = 24
     p["name"] = name
     return p
 
